@@ -232,6 +232,7 @@ static void teardown(void *vs) { st_t *s = vs; SPIF_LIST_DEL(s->l); free(s); }
 int main(int argc, char **argv)
 {
     mc_init("C02", argc, argv);
+    libast_debug_level = (unsigned) mc_dlevel();        /* --dlevel=N: the whole run at runtime debug level N (default 0) */
     S = (int) mc_arg_int("S", mc_thorough() ? 6 : 4);
     if (S > SMAX - 1) S = SMAX - 1;
     build_ops();
